@@ -418,10 +418,12 @@ impl Gen {
             }
             Reserve => Op::n(Reserve, self.capacity_arg(mon)),
             TryReserve => {
-                if self.profile == Profile::Capacity && self.rng.chance(1, 4) {
+                // failing calls too: sizes nobody can allocate, and injected allocation failure
+                let cap_profile = self.profile == Profile::Capacity;
+                if self.rng.chance(1, if cap_profile { 4 } else { 8 }) {
                     Op::n(TryReserve, self.huge_arg(mon))
                 } else {
-                    let inject = (self.profile == Profile::Capacity && self.rng.chance(1, 3)) as u64;
+                    let inject = self.rng.chance(1, if cap_profile { 3 } else { 6 }) as u64;
                     Op::n(TryReserve, self.capacity_arg(mon)).with_v(inject)
                 }
             }
